@@ -9,7 +9,7 @@ ROOT="$(cd "$(dirname "$0")/.." && pwd)"
 cd "$WT" || exit 2
 git checkout -q -- . ; git clean -fdq -e TASK.md -e OUT >/dev/null 2>&1
 hdr="$(head -1 "$D/demo_test.go")"
-dest="$(echo "$hdr" | sed -n 's/.*place in \([^ ]*\) as \([^ ]*\).*/\2/p')"
+dest="$(echo "$hdr" | sed -n 's/.*place in \([^ ]*\) as \([^ ]*\).*/\1\/\2/p' | sed 's#^\./##')"
 [ -n "$dest" ] || dest="$(echo "$hdr" | grep -o '[a-z_/]*zz[a-z_]*_test\.go' | head -1)"
 echo "== demo destination: ${dest:-<unknown>}   ($hdr)"
 run_demo() { if [ -n "$dest" ]; then cp "$D/demo_test.go" "$WT/$dest"; (cd "$WT/$(dirname "$dest")" && go test -vet=off -count=1 -run 'Demo|demo|ZZ|Zz' . 2>&1 | tail -5); rm -f "$WT/$dest"; fi; }
